@@ -174,3 +174,95 @@ Proof.
   pose proof (uuid_roundtrip n Hn) as R. unfold uuid_parse, uuid_str in R.
   rewrite strip_id in R by (apply dashed_nobrace; apply to_hex_plain). exact R.
 Qed.
+Lemma hexval_range c d : hexval c = Some d -> 0 <= d < 16.
+Proof.
+  unfold hexval.
+  destruct ((48 <=? c) && (c <=? 57)) eqn:E1.
+  { apply andb_prop in E1. destruct E1 as [A B]. apply Z.leb_le in A. apply Z.leb_le in B. intros H; injection H as <-. lia. }
+  destruct ((97 <=? c) && (c <=? 102)) eqn:E2.
+  { apply andb_prop in E2. destruct E2 as [A B]. apply Z.leb_le in A. apply Z.leb_le in B. intros H; injection H as <-. lia. }
+  destruct ((65 <=? c) && (c <=? 70)) eqn:E3; [|discriminate].
+  apply andb_prop in E3. destruct E3 as [A B]. apply Z.leb_le in A. apply Z.leb_le in B. intros H; injection H as <-. lia.
+Qed.
+
+Lemma of_hex_bound s : forall acc n, 0 <= acc -> of_hex acc s = Some n ->
+  acc * 16 ^ Z.of_nat (length s) <= n < (acc + 1) * 16 ^ Z.of_nat (length s).
+Proof.
+  induction s as [|c s IH]; intros acc n Ha H.
+  - cbn [of_hex] in H. injection H as <-. cbn [length]. change (16 ^ Z.of_nat 0) with 1. lia.
+  - cbn [of_hex] in H. destruct (hexval c) as [d|] eqn:Ed; [|discriminate].
+    pose proof (hexval_range c d Ed) as Hd.
+    specialize (IH (16 * acc + d) n ltac:(lia) H).
+    cbn [length]. rewrite Nat2Z.inj_succ, Z.pow_succ_r by lia.
+    assert (Hp : 0 < 16 ^ Z.of_nat (length s)) by (apply Z.pow_pos_nonneg; lia).
+    nia.
+Qed.
+
+(* whatever the model parser answers is a 128-bit value *)
+Theorem uuid_parse_range s n : uuid_parse s = Some n -> 0 <= n < 2 ^ 128.
+Proof.
+  unfold uuid_parse. set (h := filter not_dash (strip_with is_brace s)).
+  destruct (Nat.eqb (length h) 32) eqn:El; [|discriminate].
+  apply Nat.eqb_eq in El. intros H.
+  pose proof (of_hex_bound h 0 n ltac:(lia) H) as B. rewrite El in B.
+  change (16 ^ Z.of_nat 32) with (2 ^ 128) in B. lia.
+Qed.
+
+(* distinct UUIDs have distinct canonical texts *)
+Theorem uuid_str_injective n m : 0 <= n < 2 ^ 128 -> 0 <= m < 2 ^ 128 -> uuid_str n = uuid_str m -> n = m.
+Proof.
+  intros Hn Hm E. pose proof (uuid_roundtrip n Hn) as Rn. rewrite E, (uuid_roundtrip m Hm) in Rn. congruence.
+Qed.
+
+(* ================= dates ================= *)
+(* ---------- proofs ---------- *)
+Lemma decval_decdigit d : 0 <= d < 10 -> decval (decdigit d) = Some d.
+Proof.
+  intros Hd. unfold decval, decdigit.
+  replace ((48 <=? 48 + d) && (48 + d <=? 57)) with true; [f_equal; lia|].
+  symmetry. apply andb_true_intro. split; apply Z.leb_le; lia.
+Qed.
+
+Lemma of_dec_app a : forall acc b,
+  of_dec acc (a ++ b) = match of_dec acc a with Some acc' => of_dec acc' b | None => None end.
+Proof.
+  induction a as [|c a IH]; intros acc b; cbn [app of_dec]; [reflexivity|].
+  destruct (decval c); [apply IH | reflexivity].
+Qed.
+
+Lemma of_to_dec w : forall n acc, 0 <= n < 10 ^ Z.of_nat w ->
+  of_dec acc (to_dec w n) = Some (acc * 10 ^ Z.of_nat w + n).
+Proof.
+  induction w as [|w IH]; intros n acc Hn.
+  - cbn [to_dec of_dec]. change (10 ^ Z.of_nat 0) with 1 in *. f_equal. lia.
+  - rewrite Nat2Z.inj_succ, Z.pow_succ_r in * by lia.
+    cbn [to_dec]. rewrite of_dec_app.
+    assert (Hq : 0 <= n / 10 < 10 ^ Z.of_nat w).
+    { split; [apply Z.div_pos; lia | apply Z.div_lt_upper_bound; lia]. }
+    rewrite (IH (n / 10) acc Hq). cbn [of_dec].
+    rewrite decval_decdigit by (apply Z.mod_pos_bound; lia).
+    f_equal. pose proof (Z.div_mod n 10 ltac:(lia)). lia.
+Qed.
+
+Lemma to_dec4 y : to_dec 4 y = [decdigit (y / 10 / 10 / 10 mod 10); decdigit (y / 10 / 10 mod 10); decdigit (y / 10 mod 10); decdigit (y mod 10)].
+Proof. reflexivity. Qed.
+Lemma to_dec2 y : to_dec 2 y = [decdigit (y / 10 mod 10); decdigit (y mod 10)].
+Proof. reflexivity. Qed.
+
+Lemma days_in_month_le y m : days_in_month y m <= 31.
+Proof. unfold days_in_month. destruct (m =? 2); [destruct (is_leap y); lia|]. destruct ((m =? 4) || (m =? 6) || (m =? 9) || (m =? 11)); lia. Qed.
+
+Theorem date_roundtrip y m d : valid_ymd y m d = true -> date_parse (date_iso y m d) = Some (y, m, d).
+Proof.
+  intros Hv. pose proof Hv as Hv'. unfold valid_ymd in Hv'.
+  repeat (apply andb_prop in Hv'; destruct Hv' as [Hv' ?]).
+  repeat match goal with H : (_ <=? _) = true |- _ => apply Z.leb_le in H end.
+  pose proof (days_in_month_le y m) as Hdim.
+  unfold date_parse, date_iso. rewrite to_dec4, !to_dec2.
+  cbn [app length Nat.eqb nth firstn skipn]. rewrite !Z.eqb_refl. cbn [andb].
+  rewrite <- to_dec4, <- !to_dec2.
+  rewrite (of_to_dec 4 y 0) by (change (10 ^ Z.of_nat 4) with 10000; lia).
+  rewrite (of_to_dec 2 m 0) by (change (10 ^ Z.of_nat 2) with 100; lia).
+  rewrite (of_to_dec 2 d 0) by (change (10 ^ Z.of_nat 2) with 100; lia).
+  cbn [Z.mul Z.add]. rewrite Hv. reflexivity.
+Qed.
